@@ -101,6 +101,9 @@ def replay(path):
     print(json.dumps(r, indent=1, ensure_ascii=False))
     if "fields" not in r:
         return 0
+    if r.get("stream") == "term":       # C07: a pty session, replayed by its own driver
+        from .props import c07
+        return c07.replay_session(r)
     lk = core.lock()
     try:
         core.gen_constants()
